@@ -6,6 +6,9 @@ pub mod c19;
 pub mod px;
 pub mod c18;
 pub mod c17;
+pub mod c02;
+pub mod c03;
+pub mod oracle;
 
 pub type Suite = fn(&[i128]) -> Vec<i128>;
 
@@ -18,6 +21,11 @@ pub fn suites() -> Vec<(&'static str, Suite)> {
         ("px", px::run as Suite),
         ("c18", c18::run as Suite),
         ("c17", c17::run as Suite),
+        ("fill_spans", c02::run_fill_spans as Suite),
+        ("line_edge", c02::run_line_edge as Suite),
+        ("fill_px", c02::run_fill_px as Suite),
+        ("aruns", c03::run_aruns as Suite),
+        ("aa_spans", c03::run_aa_spans as Suite),
     ]
 }
 
